@@ -137,6 +137,9 @@ def run(plan):
     dev = RefDevice(version=version, device_id=cfg["device_id"], token=token, key=key, nonce_seed=b"cli")
     for k, v in cfg["state"].items():
         dev.state[k] = v
+    if cfg.get("chatty") and version == 3:
+        # a device that prefixes every response with an unsolicited report of its current state (same segment)
+        dev.default_directive = {"pre": ["unsol_state"]}
     w.net.listen(HOSTNAME, 6444, dev)
     before = dict(dev.state)
     props_before = dict(dev.props)
@@ -228,6 +231,7 @@ def run(plan):
                 res.fail("invalid setting rejected only after contacting the device",
                          f"{' '.join(plan['settings'])}: {len(w.net.connect_attempts)} connection attempts")
     res.take(w)
+    res.add_fired(dev.fired)
     res.key = (" ".join(argv), repr(sorted(before.items())))
     res.nontrivial = True
     res.probes["exit_" + str(status.get("how", "?")).split(" ")[0]] = 1
@@ -238,7 +242,7 @@ def base_cfg(rng):
     st = to_dev_state(rand_state(rng))
     st["display_on"] = rng.random() < 0.5
     return {"version": rng.choice([2, 3]), "device_id": rng.getrandbits(47) + 1, "state": st,
-            "give_id": rng.random() < 0.5, "capabilities": rng.random() < 0.15}
+            "give_id": rng.random() < 0.5, "capabilities": rng.random() < 0.15, "chatty": rng.random() < 0.4}
 
 
 def space(tier):
